@@ -334,23 +334,65 @@ V("C10", "read-outside-try", "fire", (SCANCMD, TRY_READ, """        text = repor
             return None
 """), "a write cut inside a multi-byte character raises UnicodeDecodeError outside the handler", "UnicodeDecodeError")
 V("C10", "handler-reraises", "fire", (SCANCMD, "        except Exception:\n            return None\n", "        except Exception:\n            raise\n"), "handler re-raises", "handler-reraises")
-V("C10", "write-only-new-dir", "fire", (SCANCMD, "    report_path.write_text(ReportWriter(report).to_json())\n", "        report_path.write_text(ReportWriter(report).to_json())\n"),
-  "report only written when the cache directory was just created: a damaged cache is never replaced", "conditional-write")
-V("C10", "mkdir-unguarded", "fire", (SCANCMD, "    if not cache_dir.exists():\n        cache_dir.mkdir()\n", "    cache_dir.mkdir()\n    if True:\n"),
-  "second scan fails with FileExistsError", "mkdir-unguarded")
+V("C10", "write-only-without-cache-file", "fire", (SCANCMD, "    report_path.write_text(ReportWriter(report).to_json())\n",
+                                                     "    if not report_path.exists():\n        report_path.write_text(ReportWriter(report).to_json())\n"),
+  "report only written when no cache file exists: a damaged cache is never replaced", "rule=R")
+V("C10", "mkdir-unguarded", "fire", (SCANCMD, "    if not cache_dir.exists():\n        cache_dir.mkdir()\n", "    cache_dir.mkdir()\n"),
+  "second scan fails with FileExistsError", "rule=R")
 V("C10", "atomic-replace-silent", "silent", (SCANCMD, "    report_path.write_text(ReportWriter(report).to_json())\n",
                                               "    tmp_path = report_path.with_suffix(\".tmp\")\n    tmp_path.write_text(ReportWriter(report).to_json())\n    tmp_path.replace(report_path)\n"),
   "atomic replace through a truncating temp file is accepted")
-V("C10", "reader-skips-bad-records", "fire", (RR, """            codebase.add_file(
-                SourceFileEntry(k, v["checksum"], v["language"], v["loc"], measurements)
+V("C10", "atomic-replace-exclusive-temp", "fire", (SCANCMD, "    report_path.write_text(ReportWriter(report).to_json())\n",
+                                                     "    tmp_path = report_path.with_suffix(\".tmp\")\n    with open(tmp_path, \"x\") as f:\n        f.write(ReportWriter(report).to_json())\n    tmp_path.replace(report_path)\n"),
+  "a temp file left by an interrupted write makes every later scan fail with FileExistsError", "rule=R")
+V("C10", "markers-only-with-new-dir", "fire", (SCANCMD, """    cache_dir_tag = cache_dir.joinpath("CACHEDIR.TAG").resolve()
+    cache_dir_tag.write_text("Signature: 8a477f597d28d172789f06886806bc55")
+    cache_dir_gitignore = cache_dir.joinpath(".gitignore").resolve()
+    cache_dir_gitignore.write_text("# Created by codelimit automatically.\\n*\\n")
+""", """        cache_dir_tag = cache_dir.joinpath("CACHEDIR.TAG").resolve()
+        cache_dir_tag.write_text("Signature: 8a477f597d28d172789f06886806bc55")
+        cache_dir_gitignore = cache_dir.joinpath(".gitignore").resolve()
+        cache_dir_gitignore.write_text("# Created by codelimit automatically.\\n*\\n")
+"""), "marker files only written with a new directory (the state before fix 2d84a53): a scan interrupted after mkdir leaves the cache without markers for ever", "rule=R5")
+V("C10", "markers-only-when-missing-silent", "silent", (SCANCMD, """    cache_dir_tag.write_text("Signature: 8a477f597d28d172789f06886806bc55")
+""", """    if not cache_dir_tag.exists() or cache_dir_tag.read_text() != "Signature: 8a477f597d28d172789f06886806bc55":
+        cache_dir_tag.write_text("Signature: 8a477f597d28d172789f06886806bc55")
+"""), "the tag is rewritten only when it is missing or differs")
+V("C10", "markers-only-when-absent", "fire", (SCANCMD, """    cache_dir_tag.write_text("Signature: 8a477f597d28d172789f06886806bc55")
+""", """    if not cache_dir_tag.exists():
+        cache_dir_tag.write_text("Signature: 8a477f597d28d172789f06886806bc55")
+"""), "a tag file cut short by an interrupted scan is never completed", "rule=R5")
+V("C10", "reader-untyped-language", "fire", (RR, '_typed(v["language"], str)', 'v["language"]'),
+  "a cache entry with language null is reused (the state before fix d97359d)", "rule=R")
+V("C10", "reader-untyped-line", "fire", (RR, '_typed(d["line"], int)', 'd["line"]'),
+  "a cache entry with a string as line number is reused and written back as invalid JSON", "rule=R")
+V("C10", "reader-measurements-any-iterable", "fire", (RR, '_typed(v["measurements"], list)', 'v["measurements"]'),
+  "an object in place of the list of measurements is read as 'no functions'", "rule=R")
+V("C10", "reader-missing-measurements-default", "fire", (RR, '_typed(v["measurements"], list)', '_typed(v.get("measurements", []), list)'),
+  "a record without measurements is read as 'no functions'", "rule=R")
+V("C10", "reader-skips-bad-records-silent", "silent", (RR, """            codebase.add_file(
+                SourceFileEntry(
+                    k,
+                    _typed(v["checksum"], str),
+                    _typed(v["language"], str),
+                    _typed(v["loc"], int),
+                    measurements,
+                )
             )
 """, """            try:
-                codebase.add_file(
-                    SourceFileEntry(k, v["checksum"], v["language"], v["loc"], measurements)
+                entry = SourceFileEntry(
+                    k,
+                    _typed(v["checksum"], str),
+                    _typed(v["language"], str),
+                    _typed(v["loc"], int),
+                    measurements,
                 )
-            except TypeError:
-                pass
-"""), "partially registered entries escape", "swallowing-handler")
+            except (KeyError, TypeError, ValueError):
+                continue
+            codebase.add_file(entry)
+"""), "a record that fails validation is skipped before it is registered: its file is analysed afresh")
+V("C10", "reader-bool-is-int", "silent", (RR, "    if not isinstance(value, expected) or isinstance(value, bool):", "    if not isinstance(value, expected) or (expected is int and value is True or value is False):"),
+  "the bool exclusion written differently")
 
 # ------------------------------------------------------------------ C09
 SCN = "codelimit/common/Scanner.py"
